@@ -615,7 +615,7 @@ func (u *universe) buildTable(rs []recordF, bound *cid.ID) eacl.Table {
 func aclMain(args []string) {
 	n := 900
 	if thorough() {
-		n = 12000
+		n = 6000
 	}
 	if len(args) > 0 {
 		n, _ = strconv.Atoi(args[0])
